@@ -358,7 +358,7 @@ Definition m15_representable (s : script) : bool :=
   | None => false
   | Some l =>
     (match lra_f l with FRate | FCountOverTime => true | _ => false end)
-    && Z.leb 15000000000 (lra_dur_ns l)
+    && Z.leb 15000000000 (lra_dur_ns l) && Z.eqb ((lra_dur_ns l) mod 15000000000) 0      (* windows made of whole slots *)
     && forallb (fun st => stage_transparent st || is_stream_label_filter st) (sel_pipeline (lra_sel l))
   end.
 (* the label filters a plan applies to the fingerprint selection *)
@@ -370,8 +370,16 @@ Fixpoint fp_label_filters (p : planner) : list label_filter :=
 Definition pipeline_label_filters (ppl : list stage) : list label_filter :=
   flat_map (fun st => match st with PLabelFilter f => [f] | _ => [] end) ppl.
 Definition n_label_filters (s : script) : nat := List.length (pipeline_label_filters (sel_pipeline (stream_selector s))).
-(* the time window of the shortcut select *)
+(* The roll-up table as a row list: every line of samples contributes one count to the slot floor15(ts) of its
+   stream (countMerge over a set of slots = the number of lines in them). The shortcut select groups the slots by
+   (fingerprint, intDiv(slot, range) * range). *)
 Definition floor15 (x : Z) : Z := Z.quot x 15000000000 * 15000000000.
+Definition m15_rows (rows : list mrow) : list mrow := map (fun r => set_ts (floor15 (r_ts r)) r) rows.
+Definition eval_m15 (v : m15_val) (g : list mrow) : Qc :=
+  match v with MVCount => qlen g | MVCountDiv ms => Qcdiv (qlen g) (secs_of_ms ms) end.
+Definition sem_m15 (v : m15_val) (d : Z) (slots : list mrow) : list mrow :=
+  map (fun g => agg_row (eval_m15 v g) g) (group_by same_fp_ts (map (fun r => set_ts (bucket_sql_z d (r_ts r)) r) slots)).
+(* the time window of the shortcut select *)
 Definition m15_in_window (c : pctx) (ts : Z) : bool := Z.leb (floor15 (c_from_ns c)) ts && Z.ltb ts (floor15 (c_to_ns c)).
 
 (* ================= Go post-processors (planner_zero_eater.go, planner_from_fix.go) ================= *)
